@@ -369,6 +369,7 @@ OBLIGATIONS = [
     ('C02.O8', 'SyncTest and spectator siblings', 'SyncTest saves (check_distance > 0) before fetching and stepping; the '
      'spectator steps only after inputs_at_frame succeeded, fetching frame current+1.', o8),
     ('C02.O9', 'a failing call drops no half-executed request list (= C16.O2)', 'no error exit of the advance path is reachable after the sync layer was rolled back / saved: the requests that go with those effects would be lost and the game would stay on a discarded timeline; see C16.O2', _c16_o2),
+    ('C02.O10', 'the load goes back to the earliest wrong frame (= C01.O7)', 'a LoadGameState names a frame whose cell holds a state of the current timeline only if the rollback starts at the EARLIEST frame any queue (or the pending disconnect) reports as wrong: from a later one the loaded state was simulated with an input already known to be mispredicted, and reset_prediction then forgets the earlier report.  check_simulation_consistency is a NULL-aware min-reduction; see C01.O7', c01.o7),
     ('C02.H', 'helpers the rules above rely on', 'the bodies of the helpers named by this property\'s rules compute what the rules assume (get_cell, saved_state_by_frame, cell_accessors); see rules/helpers.py', helpers.bundle('get_cell', 'saved_state_by_frame', 'cell_accessors')),
     ('C02.I', 'initial state', 'every constructor gives the fields this property\'s rules interpret (NULL_FRAME = none / nothing yet, 0 = first frame, latches open, typestate start) the value listed in tables/initial_state.json; every field compared with NULL_FRAME anywhere is listed; see rules/initial.py', initial.rule_for('C02')),
     ('C02.W', 'configuration wiring', 'no crossed wires at call sites, in struct literals and in plain getters (last_saved_frame / last_confirmed_frame / current_frame are three same-typed fields with three getters); see rules/wiring.py', wiring.rule),
@@ -376,7 +377,7 @@ OBLIGATIONS = [
     ('C02.V', 'no unreviewed condition in the pinned helpers', 'for each helper whose body this property\'s rules pin (tables/condition_terms.json), the terms its path conditions are built from (fields, parameters, call results -- no constants, operators or local names) are a subset of the reviewed vocabulary: one more `if` in front of a pinned result (a lock that may time out, "only while an endpoint is running") is reported; see rules/vocab.py', vocab.rule_for('C02')),
     ('C02.S', 'state inventory', 'every field of the structs this property\'s rules read (tables/state.json) is known, and is written only by its reviewed writers (or helpers only they call): a new field is new state across calls -- a cache, a flag, a stored deadline -- that nothing has shown to stay in step; a new writer is a second place that resets, re-arms or moves something; see rules/inventory.py', inventory.state_rule_for('C02')),
     ('C02.E', 'error-exit inventory', 'every (function, GgrsError variant) pair constructed in the crate is listed in tables/error_exits.json: a call that can fail in a new way -- typically after effects whose requests are then dropped -- is reported; see rules/inventory.py', inventory.error_rule),
-    ('C02.K', 'call inventory', 'every reviewed call of a function that writes state (tables/call_edges.json, callers in the structs this property\'s rules read) is still made, directly or through helpers: a call deleted as redundant is reported; see rules/inventory.py', inventory.call_rule_for('C02')),
+    ('C02.K', 'call inventory', 'every reviewed call of a function that writes state (tables/call_edges.json, callers in the structs this property\'s rules read) is still made, directly or through helpers: a call deleted as redundant is reported; likewise the arguments of logging / debug-only macros change no state, no unreviewed call of a state-writing function appears (tables/call_edges_all.json), the types of the locals a loop carries from one iteration to the next (tables/carried.json) and, per function and field, how reads and writes of the field are ordered (tables/orders.json: a snapshot taken before instead of after an update) are as reviewed; see rules/inventory.py', inventory.call_rule_for('C02')),
     ('C02.A', 'expression inventory', 'every arithmetic expression handed to a call or stored in a field, and what every closure given to an iterator adaptor / collection method returns, is one of the reviewed expressions of its function (tables/expressions.json; linear / guard normal forms, no local names): a changed literal, operator, operand order, factor, predicate or sort key is reported; see rules/inventory.py', inventory.expr_rule_for('C02')),
     ('C02.P', 'trait-impl inventory', 'each (type, trait) pair among PartialEq / Eq / Hash / Ord / Clone / Default / From / Deref / InputPredictor is derived or hand-written as listed in tables/impls.json: a derive replaced by a hand-written impl (equality by address only, a hash that ignores a field) changes which map keys collide and which inputs match with every call site unchanged; see rules/inventory.py', inventory.impl_rule),
     ('C02.Z', 'constants and type shapes', 'every named constant keeps its reviewed value and every type its reviewed shape -- variants and fields in order, with their types (tables/shapes.json): a ring size, sentinel, default or wire constant changed by value, a frame or checksum stored in a narrower type, a variant or field added, removed or reordered is reported; see rules/inventory.py', inventory.shape_rule),
